@@ -106,6 +106,11 @@ class Model:
         st.last = None
         for o, _p in root["ops"]:
             self._start(st, o)
+        for o, r in root.get("init", ()):  # pre-positioned roots: operation o already holds r
+            st.clock.advance(1)
+            got = st.ctl.acquire_resource(st.ctl.active_operations[o], r)
+            if got != LockResult.ACQUIRED:
+                raise common.HarnessError(f"root set-up: {o} {r} -> {got}")
         return st
 
     def clone(self, st):
@@ -339,25 +344,28 @@ class Model:
 
 # ---------------------------------------------------------------- configurations
 
-def _root(ops, res, preempt):
-    return {"ops": [list(x) for x in ops], "res": list(res), "preempt": list(preempt)}
+def _root(ops, res, preempt, init=()):
+    return {"ops": [list(x) for x in ops], "res": list(res), "preempt": list(preempt), "init": [list(x) for x in init]}
 
 
 R3 = ("r1", "r2", "r3")
 R2 = ("r1", "r2")
 AB = (("A", 0), ("B", 5))
 ABC = (("A", 0), ("B", 0), ("C", 5))
+EACH = (("A", "r1"), ("B", "r2"), ("C", "r3"))  # contention root: every operation already holds one resource
 
 PLANS = {
     "quick": [
         ("2ops-3res", [_root(AB, R3, ()), _root(AB, R3, R3), _root(AB, R3, ("r1",))], 6),
         ("3ops-2res", [_root(ABC, R2, ()), _root(ABC, R2, R2)], 5),
         ("3ops-3res", [_root(ABC, R3, ()), _root(ABC, R3, ("r1",))], 4),
+        ("3ops-3res-each-holds-one", [_root(ABC, R3, (), EACH), _root(ABC, R3, R3, EACH)], 5),
     ],
     "thorough": [
         ("2ops-3res", [_root(AB, R3, ()), _root(AB, R3, R3), _root(AB, R3, ("r1",))], 8),
         ("3ops-2res", [_root(ABC, R2, ()), _root(ABC, R2, R2), _root(ABC, R2, ("r1",))], 8),
         ("3ops-3res", [_root(ABC, R3, ()), _root(ABC, R3, R3), _root(ABC, R3, ("r1",))], 6),
+        ("3ops-3res-each-holds-one", [_root(ABC, R3, (), EACH), _root(ABC, R3, R3, EACH), _root(ABC, R3, ("r1",), EACH)], 7),
     ],
 }
 
